@@ -21,6 +21,7 @@
 -/
 import PyGqlModel.Props.C06_overlap_hyps3
 import PyGqlModel.Validate.WfSchema
+import PyGqlModel.Props.C06_frags2
 namespace PyGql.Props.C06
 open PyGql PyGql.Validate PyGql.Validate.Spec
 
@@ -139,6 +140,44 @@ theorem attribution_all_unique_names (s : SchemaD) (fx : Fixes) (hfx : HeadVars 
     0 < E (alone s fx r d) ∧ ∀ r' ∈ Rule.all, r' ≠ r → E (alone s fx r' d) = 0 := by
   obtain ⟨h1, h2⟩ := attribution_all s fx hfx hs d hd r hr hbad hothers
   exact ⟨h1, fun r' hr' hdiff => h2 r' hr' hdiff (fun h => hru h.1)⟩
+
+
+/-! ### with the clause of 5.5.1.4 itself for NoUnusedFragments
+
+`SpecAll .noUnusedFragments` is the clause the visitor implements (`everyFragmentSpreadSomewhere`, ledger V6). In the
+conjunction of all clauses it can be replaced by 5.5.1.4 proper (`Spec.noUnusedFragments`: every fragment is reachable
+from an operation): the two agree when fragment names are unique and spreads acyclic
+(`no_unused_fragments_spec_iff_implemented`, Props/C06_frags2.lean), and both are among the clauses. -/
+
+/-- the clauses with 5.5.1.4 as the specification states it -/
+def SpecStd (r : Rule) (s : SchemaD) (fx : Fixes) (d : Doc) : Prop :=
+  match r with
+  | .noUnusedFragments => Spec.noUnusedFragments d
+  | r => SpecAll r s fx d
+
+theorem specStd_of_ne {r : Rule} (s : SchemaD) (fx : Fixes) (d : Doc) (h : r ≠ .noUnusedFragments) :
+    SpecStd r s fx d = SpecAll r s fx d := by
+  cases r <;> first | rfl | exact absurd rfl h
+
+theorem specStd_all_iff (s : SchemaD) (fx : Fixes) (d : Doc) :
+    (∀ r ∈ Rule.all, SpecStd r s fx d) ↔ (∀ r ∈ Rule.all, SpecAll r s fx d) := by
+  constructor
+  · intro h r hr
+    by_cases hn : r = .noUnusedFragments
+    · subst hn
+      exact no_unused_implies_spread_somewhere d (h .noUnusedFragments hr)
+    · rw [← specStd_of_ne s fx d hn]; exact h r hr
+  · intro h r hr
+    by_cases hn : r = .noUnusedFragments
+    · subst hn
+      exact spread_somewhere_implies_no_unused d (h .uniqueFragmentNames (by decide)) (h .noFragmentCycles (by decide))
+        (h .noUnusedFragments hr)
+    · rw [specStd_of_ne s fx d hn]; exact h r hr
+
+/-- **verdict_iff for the whole chain, with 5.5.1.4 proper** -/
+theorem verdict_iff_all_std (s : SchemaD) (fx : Fixes) (hfx : HeadVars fx) (hs : SchemaOutputs s) (d : Doc) (hd : DocOk s d) :
+    (∀ r ∈ Rule.all, Silent s fx r d) ↔ (∀ r ∈ Rule.all, SpecStd r s fx d) :=
+  (verdict_iff_all s fx hfx hs d hd).trans (specStd_all_iff s fx d).symm
 
 /-! non-vacuity: the hypotheses hold, by evaluation, on the example schema and documents of
     `Props/C06_overlap_examples.lean` -/
